@@ -233,6 +233,7 @@ func TestC09(t *testing.T) {
 	sessionCacheLedger(t, r)
 	sidecarLedger(t, r)
 	capacityScenarios(t, r)
+	largeCacheLedger(t, r)
 	r.Finish(t)
 }
 
